@@ -402,6 +402,9 @@ def run(ctx):
     for nuB, nuF, T in itertools.product((1.0, 0.1), (0.1, 10.0), (0.05, 1.0)):
         if nuB != nuF:
             cases.append({'kind': 'growth', 'nuB': nuB, 'nuF': nuF, 'T': T})
+    # strong exponential declines inside ONE call of the time-dependent driver (the step must follow the shrinking population)
+    for nuB, nuF, T in ((10.0, 0.1, 0.3), (20.0, 0.05, 0.3), (10.0, 0.1, 1.0)):
+        cases.append({'kind': 'growth', 'nuB': nuB, 'nuF': nuF, 'T': T})
     for nu, beta, theta0 in itertools.product((0.1, 1.0, 10.0), (0.2, 1.0, 5.0), (0.5, 1.0, 3.0)):
         if ctx.quick and (theta0 != 1.0 and (nu != 1.0 or beta != 1.0)):
             continue
